@@ -63,9 +63,9 @@ func init() {
 	})
 	register(&Property{
 		ID:          "C27",
-		Explanation: "RS (one clause): the accept flag of ir.(*Session).Lower is computed by a comparison of Diagnostic.Level() with constants which, evaluated over the whole Level domain with go/constant, clears ok exactly for {ICE, Error}.",
+		Explanation: "RNC: no function of the experimental descriptor generator (experimental/fdp) narrows or sign-converts a 32/64-bit integer without dominating range guards (a default or number rendered through the wrong signedness differs from the stable compiler). RS: the accept flag of ir.(*Session).Lower is computed by a comparison of Diagnostic.Level() with constants which, evaluated over the whole Level domain with go/constant, clears ok exactly for {ICE, Error}.",
 		NotDecided:  "agreement of verdicts and descriptors between the two compilers (differential, value-level)",
-		Rules:       []func(*World){rsLower},
+		Rules:       []func(*World){rsLower, rncFDP},
 	})
 	register(&Property{
 		ID:          "C04",
